@@ -12,7 +12,7 @@ The semantic property below should hold for Tornado. Produce ONE change to Torna
 
 Also write a demonstration: a small standalone Python program %(wt)s_out/demo.py (create the directory %(wt)s_out) that takes the path of a Tornado checkout as argv[1], puts it first on sys.path, exercises the public behaviour, and exits 0 when the property holds on that input and exits 1 (printing what went wrong) when it is violated. It must exit 1 against your modified worktree and exit 0 against the unmodified /repo. Run both and confirm.
 
-Write `git -C %(wt)s diff > %(wt)s_out/patch.diff` and %(wt)s_out/meta.json with keys: property (id), summary (one sentence: what the bug is), needs (what specific input/sequence/timing is required for it to manifest), ran (the commands you ran and their outcomes). Finally remove the worktree: `git -C /repo worktree remove --force %(wt)s` (keep %(wt)s_out). Your final message: the summary, the needs, and confirmation of the three checks (tests pass, demo fails with patch, demo passes on /repo).
+Never use `git stash` (the stash is shared by all worktrees of /repo and other agents are working in their own worktrees right now). Write `git -C %(wt)s diff > %(wt)s_out/patch.diff` and %(wt)s_out/meta.json with keys: property (id), summary (one sentence: what the bug is), needs (what specific input/sequence/timing is required for it to manifest), ran (the commands you ran and their outcomes). Finally remove the worktree: `git -C /repo worktree remove --force %(wt)s` (keep %(wt)s_out). Your final message: the summary, the needs, and confirmation of the three checks (tests pass, demo fails with patch, demo passes on /repo).
 
 PROPERTY %(pid)s — %(title)s
 Statement: %(statement)s
